@@ -54,6 +54,13 @@ func c13Setup(t *testing.T) {
 		p := filepath.Join(dir, fmt.Sprintf("c13_subnets_%d.toml", i))
 		body := fmt.Sprintf("[Networks]\n  [Networks.1]\n    Generation = 1\n    [[Networks.1.WeightedSubnets]]\n      Weight = 1\n      RandomizeDstPort = true\n      Subnets = [%q, %q]\n"+
 			"  [Networks.2]\n    Generation = 2\n    [[Networks.2.WeightedSubnets]]\n      Weight = 1\n      RandomizeDstPort = true\n      Subnets = [%q]\n", sp[0], sp[1], sp[0])
+		// generation 4 has IPv4 subnets only in the first file and both families in the second: a dual-stack
+		// request of that generation fails under the old set and is served under the new one - in full
+		if i == 0 {
+			body += fmt.Sprintf("  [Networks.4]\n    Generation = 4\n    [[Networks.4.WeightedSubnets]]\n      Weight = 1\n      RandomizeDstPort = true\n      Subnets = [%q]\n", sp[0])
+		} else {
+			body += fmt.Sprintf("  [Networks.4]\n    Generation = 4\n    [[Networks.4.WeightedSubnets]]\n      Weight = 1\n      RandomizeDstPort = true\n      Subnets = [%q, %q]\n", sp[0], sp[1])
+		}
 		if i == 0 {
 			// generation 3 exists only in the first file: after a reload to the second file it must be gone
 			body += fmt.Sprintf("  [Networks.3]\n    Generation = 3\n    [[Networks.3.WeightedSubnets]]\n      Weight = 1\n      RandomizeDstPort = true\n      Subnets = [%q, %q]\n", sp[0], sp[1])
@@ -91,6 +98,8 @@ var c13Small = []struct {
 	{[]int{3, 2}, []int{0}},
 	{[]int{4, 0}, []int{0}},
 	{[]int{5, 3}, []int{0, 1}},
+	{[]int{7}, []int{0}},
+	{[]int{7, 2}, []int{0}},
 }
 
 var c13BadFiles [2]string
@@ -138,7 +147,7 @@ func c13Scenario(r *sim.Run) {
 	} else {
 		n := 1 + tp.Choose("nreq", 3)
 		for i := 0; i < n; i++ {
-			reqs = append(reqs, []int{0, 1, 2, 2, 3, 4, 5}[tp.Choose("kind", 7)])
+			reqs = append(reqs, []int{0, 1, 2, 2, 3, 4, 5, 7}[tp.Choose("kind", 8)])
 		}
 		nr := tp.Choose("nreload", 4)
 		for i := 0; i < nr; i++ {
@@ -191,7 +200,9 @@ func c13Scenario(r *sim.Run) {
 	// configured); requests that the registrar must REJECT, and that must not leave anything
 	// behind: 3 = dual stack on generation 2 (no IPv6 subnets: the IPv6 selection fails after the
 	// IPv4 one succeeded), 4 = IPv6 only on an unknown generation, 5 = IPv4 only on an unknown generation
-	failing := func(kind int) bool { return kind >= 3 }
+	// 7 = dual stack on generation 4, which only the second file can serve for both families: the
+	// request either fails (old set) or gets both addresses from the second file (new set)
+	failing := func(kind int) bool { return kind >= 3 && kind != 7 }
 	mkReq := func(i, kind int) *pb.C2SWrapper {
 		secret := make([]byte, 32)
 		for j := range secret {
@@ -200,7 +211,7 @@ func c13Scenario(r *sim.Run) {
 		tt := pb.TransportType_Min
 		c2s := &pb.ClientToStation{
 			Transport:           &tt,
-			DecoyListGeneration: proto.Uint32(map[int]uint32{3: 2, 4: 9, 5: 9, 6: 3}[kind] + map[bool]uint32{true: 0, false: 1}[kind >= 3]),
+			DecoyListGeneration: proto.Uint32(map[int]uint32{3: 2, 4: 9, 5: 9, 6: 3, 7: 4}[kind] + map[bool]uint32{true: 0, false: 1}[kind >= 3]),
 			CovertAddress:       proto.String("203.0.113.9:443"),
 			V4Support:           proto.Bool(kind != 1 && kind != 4),
 			V6Support:           proto.Bool(kind != 0 && kind != 5),
@@ -277,6 +288,10 @@ func c13Scenario(r *sim.Run) {
 				return
 			}
 			r.Probe("request_rejected_by_selection")
+			continue
+		}
+		if reqs[i] == 7 && o.done && o.err != nil {
+			r.Probe("family_missing_in_old_set_request_rejected")
 			continue
 		}
 		nOK++
